@@ -889,12 +889,19 @@ def run_real_sessions(ops: List[Dict[str, Any]], judge: bool = True, start: Opti
             before = real.snapshot()
             sig0 = real.file_sig()
             if op["k"] in ("config", "hash"):
-                if op["k"] == "config":
-                    real.driver.config_changed()  # increment_config_version + persist (+ advertisement: C18)
-                elif real.state.set_accessories_hash(op["h"]):  # AccessoryDriver.async_start
-                    real.driver.async_persist()
+                err = None
+                try:
+                    if op["k"] == "config":
+                        real.driver.config_changed()  # increment_config_version + persist (+ advertisement: C18)
+                    elif real.state.set_accessories_hash(op["h"]):  # AccessoryDriver.async_start
+                        real.driver.async_persist()
+                except Exception as ex:  # noqa: BLE001  (what the implementation did is an observation, never a harness error)
+                    err = type(ex).__name__
                 wrote = real.file_sig() != sig0
-                steps.append({"acc": full_state(real), "wrote": wrote, "doc": real.file_doc() if wrote else None})
+                step = {"acc": full_state(real), "wrote": wrote, "doc": real.file_doc() if wrote else None}
+                if err:
+                    step["raised"] = err
+                steps.append(step)
                 continue
             if op["k"] == "restart":
                 memory = full_state(real)
@@ -1158,9 +1165,9 @@ def whole_life_scripts(ctx: Ctx):
     # legacy starts: restart again after the back-fill; configuration number at the edge
     for absent in (["client_uuid_to_bytes"], ["client_properties", "client_uuid_to_bytes"], ["client_properties"]):
         start = session_start(rng, [A, B], [1, 0], absent)
-        start["state"]["config_version"] = 65535
+        start["state"]["config_version"] = 65534
         out.append(([s_verify(0, respelled(rng, B), B["seed"]), dict(LIFE_RESTART), s_verify(1, A["id"], A["seed"]), s_req(1, LIST_BODY), life_config(),
-                     life_hash(None), life_hash("cd" * 32), dict(LIFE_RESTART), s_verify(0, A["id"], A["seed"]), s_req(0, LIST_BODY)], start))
+                     dict(LIFE_RESTART), life_config(), life_hash(None), life_hash("cd" * 32), dict(LIFE_RESTART), s_verify(0, A["id"], A["seed"]), s_req(0, LIST_BODY)], start))
     for _ in range(ctx.n(60, 1200)):
         ops = random_session_script(ctx)
         k = rng.randrange(1, 4)
@@ -1209,7 +1216,7 @@ def compare_sessions(ctx: Ctx, driver: str, scripts, lines, impl):
         if ms != steps:
             j = next((k for k, (a, b) in enumerate(zip(ms, steps)) if a != b), min(len(ms), len(steps)))
             a, b = (ms[j] if j < len(ms) else {}), (steps[j] if j < len(steps) else {})
-            field = next((f for f in ("verified", "sess", "resp", "state", "wrote", "doc", "pr", "restarted", "acc") if a.get(f) != b.get(f)), "?")
+            field = next((f for f in ("raised", "verified", "sess", "resp", "state", "wrote", "doc", "pr", "restarted", "acc") if a.get(f) != b.get(f)), "?")
             if field == "acc" and isinstance(a.get("acc"), dict) and isinstance(b.get("acc"), dict):
                 sub = next((f for f in b["acc"] if a["acc"].get(f) != b["acc"].get(f)), "?")
                 field, a, b = "acc/" + sub, {"acc/" + sub: a["acc"].get(sub)}, {"acc/" + sub: b["acc"].get(sub)}
@@ -1230,14 +1237,23 @@ def run_sessions(ctx: Ctx):
     cases += life
     st.notes.append(f"whole-life stream: {len(life)} histories over the full alphabet of the model's `hstep` (real sessions + configuration-number "
                     "increments + hash updates + restarts through the real state file); after a restart the model predicts the loaded state itself")
-    scripts = [o for o, _ in cases]
-    st.notes.append(f"session stream: {nb} deterministic + {len(scripts) - nb} random histories with real pair-verify exchanges "
+    st.notes.append(f"session stream: {nb} deterministic + {len(cases) - nb - len(life)} random histories with real pair-verify exchanges "
                     "(honest ones spelling the identifier as registered or in another of the 10 families, dishonest ones on fresh and on "
                     "already verified connections, some after a restart from a file without recorded identifier bytes); pairing data "
                     "incl. recorded identifier bytes judged after EVERY step")
     lines, impl = [], []
+    ran = []
     for ops, start in cases:
-        ident, steps, v, abstained, init = run_real_sessions(ops, start=start)
+        try:
+            ident, steps, v, abstained, init = run_real_sessions(ops, start=start)
+        except Exception as ex:  # noqa: BLE001  an exception escaped the implementation where the model predicts none
+            import traceback
+
+            st.hit("outcome", f"exception-observed/sessions/{type(ex).__name__}")
+            ctx.disagree("exception/sessions", {"ops": [o["k"] for o in ops]}, "no exception",
+                         "".join(traceback.format_exception(type(ex), ex, ex.__traceback__))[-700:])
+            continue
+        ran.append(ops)
         lines.append(sessions_model_line(ops, ident, init))
         impl.append(steps)
         if v.sig is not None:
@@ -1270,10 +1286,12 @@ def run_sessions(ctx: Ctx):
             else:
                 tr.append(["s", s_["resp"]["code"]])
         st.case(["sessions", tr], True)
+    scripts = ran
     model = compare_sessions(ctx, "C06", scripts, lines, impl)
-    st.sample({"session_ops": [{k: (v_[:24] + "..." if isinstance(v_, str) and len(v_) > 24 else v_) for k, v_ in o.items()} for o in scripts[0][4:7]],
-               "impl_steps": [{k: v_ for k, v_ in s_.items() if k in ("verified", "sess", "resp")} for s_ in impl[0][4:7]],
-               "model_agrees": "steps" in model[0]})
+    if scripts:
+        st.sample({"session_ops": [{k: (v_[:24] + "..." if isinstance(v_, str) and len(v_) > 24 else v_) for k, v_ in o.items()} for o in scripts[0][4:7]],
+                   "impl_steps": [{k: v_ for k, v_ in s_.items() if k in ("verified", "sess", "resp")} for s_ in impl[0][4:7]],
+                   "model_agrees": "steps" in model[0]})
 
 
 # ----------------------------------------------------------------------------- entry points
